@@ -10,7 +10,7 @@ EXTENDS Parser, Json, IOUtils
 
 Rec == ndJsonDeserialize(IOEnv.TRACE)
 VARIABLE l
-tvars == <<Doc, Strict, l>>
+tvars == <<Doc, Strict, Specs, l>>
 
 Chk(name, cond) == IF cond THEN TRUE ELSE Print(<<"FAILED", name>>, FALSE)
 
@@ -110,10 +110,15 @@ SkipVerdict(ev) ==
                    /\ Chk("RestUnchanged", ev.modelEq)
     /\ Chk("StrictRejects", ~ev.s.ok /\ ev.s.e[1] = "UnknownSubBlock" /\ ev.strictNamesTag)
 
-TraceInit == Doc = <<>> /\ Strict = FALSE /\ l = 1
+\* the A2ML definitions of a load event: defs = Seq([decls, infile]) (built-in argument first, then the A2ML block
+\* of the document, which is in force behind that block)
+SpecsOf(ev) == IF "defs" \in DOMAIN ev
+               THEN [i \in 1..Len(ev.defs) |-> [t |-> Resolve(ev.defs[i].decls).t, infile |-> ev.defs[i].infile]]
+               ELSE <<>>
+TraceInit == Doc = <<>> /\ Strict = FALSE /\ Specs = <<>> /\ l = 1
 TraceNext == /\ l <= Len(Rec)
-             /\ IF "pair" \in DOMAIN Rec[l] \/ "skip" \in DOMAIN Rec[l] THEN UNCHANGED <<Doc, Strict>>
-                ELSE Doc' = Rec[l].toks /\ Strict' = Rec[l].strict
+             /\ IF "pair" \in DOMAIN Rec[l] \/ "skip" \in DOMAIN Rec[l] THEN UNCHANGED <<Doc, Strict, Specs>>
+                ELSE Doc' = Rec[l].toks /\ Strict' = Rec[l].strict /\ Specs' = SpecsOf(Rec[l])
              /\ l' = l + 1
 TraceSpec == TraceInit /\ [][TraceNext]_tvars
 
